@@ -322,6 +322,10 @@ def compare_concrete(payload, trips, fc):
         ts = [per[a] / fc.get(f"T_{c}_{a}", 1.0) for a in names]
         lat[c] = max(ts) if c in opts.get("latency_expr", {}) else sum(ts)
         dyn += sum(per[a] * fc.get(f"E_{c}_{a}", 1.0) for a in names)
+    for c, v in lat.items():
+        col = f"{ename}{SEP}latency{SEP}{c}"
+        if col in row and abs(float(row[col]) - v) > 1e-6 * max(1.0, abs(v)):
+            bad.append(dict(column=col, model=float(row[col]), executed=v))
     tot_lat = max(lat.values())
     leak = sum(fc.get(f"leak_{c}", 1.0) for c in kinds) * tot_lat
     for name, got, v in [("Total<SEP>latency", float(row["Total<SEP>latency"]), tot_lat),
@@ -342,15 +346,25 @@ def violation_record(payload, trips, fc, bad, bounds, d):
 
 def replay(payload, kind, d, trips, costs, st):
     arch, wl, sk, opts, vpa = payload
-    if kind != "count":
-        # identities hold for arbitrary symbol values; reproduce through a concrete run
-        trips = {i: 2 for i in M.loops_of(sk)}
-    fc = {k: float(v) for k, v in (costs or {}).items() if v is not None}
-    bad, bounds = compare_concrete(payload, trips, fc)
-    st.replays += 1
-    if not bad:
-        raise HarnessError(f"solver model does not reproduce on the real code: {M.sk_str(sk)} {d} trips={trips}")
-    return violation_record(payload, trips, fc, bad, bounds, d)
+    fc = {k: float(v) for k, v in (costs or {}).items() if v is not None and not k.startswith(("B_", "stride"))}
+    if kind == "count":
+        cands = [trips]
+    else:
+        # an identity between model outputs failed for SOME tile shapes (the solver's witness need
+        # not be a perfect factorisation): look for a concrete witness among small trip vectors
+        import itertools as _it
+        L = M.loops_of(sk)
+        cands = [{i: 2 for i in L}, {i: 3 for i in L}]
+        rng = random.Random(len(sk))
+        allv = list(_it.product([1, 2, 3], repeat=len(L)))
+        rng.shuffle(allv)
+        cands += [dict(zip(L, v)) for v in allv[:40]]
+    for tv in cands:
+        bad, bounds = compare_concrete(payload, tv, fc)
+        st.replays += 1
+        if bad:
+            return violation_record(payload, tv, fc, bad, bounds, d)
+    raise HarnessError(f"solver model does not reproduce on the real code: {M.sk_str(sk)} {d} trips={trips}")
 
 
 def validate_concrete(payload, K, st, rng):
